@@ -14,7 +14,7 @@ Property search on the implementation (oracle: CPython evaluates the condition; 
   widen    : o in narrowed(pol)      =>  o in V or o in tested(cond)
   verdict  : boolability "always true"/"always false"  =>  every member object is truthy / falsy
 """
-import ast, enum, json, os
+import ast, enum, itertools, json, os, re
 
 from harness.common import lean, pya, values as V, gen_values as G
 from harness.props.c03 import ty_src, obj_src, PRELUDE, subterms, subobjs, totuple, property_silent, ABCS as ABCS_
@@ -92,7 +92,7 @@ TRUSTED = [
 
 from pyanalyze import value as PV  # noqa: E402
 from pyanalyze.stacked_scopes import (  # noqa: E402
-    AndConstraint, Constraint, ConstraintType, OrConstraint, PredicateProvider, VarnameWithOrigin, constrain_value,
+    AndConstraint, Constraint, ConstraintType, NULL_CONSTRAINT, OrConstraint, PredicateProvider, VarnameWithOrigin, constrain_value,
 )
 from pyanalyze.predicates import EqualsPredicate, InPredicate, IsAssignablePredicate  # noqa: E402
 from pyanalyze.boolability import get_boolability, _get_type_boolability  # noqa: E402
@@ -109,6 +109,7 @@ def live_cls(names):
 
 
 VN = VarnameWithOrigin("x")
+VNY = VarnameWithOrigin("y")
 OPS = {"eq": (ast.Eq, "=="), "ne": (ast.NotEq, "!="), "lt": (ast.Lt, "<"), "le": (ast.LtE, "<="), "gt": (ast.Gt, ">"),
        "ge": (ast.GtE, ">=")}
 ENUMS = [V.CID[U.Color], V.CID[U.IE]]
@@ -209,6 +210,10 @@ def cond_sexp(c):
         return "(%s %s)" % (k, V.ty_sexp(c[1]))
     if k in ("mclass", "ainst"):
         return "(%s %d)" % (k, c[1])
+    if k == "other":
+        return "(other %s)" % cond_sexp(c[1])
+    if k == "opq":
+        return "(opq %d)" % c[1]
     if k == "not":
         return "(not %s)" % cond_sexp(c[1])
     if k in ("and", "or"):
@@ -217,6 +222,9 @@ def cond_sexp(c):
 
 
 def leaves(c):
+    """the atoms on the narrowed variable"""
+    if c[0] in ("other", "opq"):
+        return []
     if c[0] == "swap":
         return [c[1]]
     if is_leaf(c):
@@ -268,6 +276,11 @@ def build_constraint(c, checker):
         return Constraint(VN, ConstraintType.is_instance, True, V.CLASSES[c[1]])
     if k == "ais":
         return Constraint(VN, ConstraintType.is_value, True, V.obj_to_py(c[1]))
+    if k == "other":
+        import dataclasses
+        return dataclasses.replace(build_constraint(c[1], checker), varname=VNY, inverted=None)  # the same atom on variable y
+    if k == "opq":
+        return NULL_CONSTRAINT   # a call / a comparison of two non-literals / isinstance(x, cls_var): no constraint
     if k == "not":
         return build_constraint(c[1], checker).invert()
     if k == "and":
@@ -313,7 +326,12 @@ def impl_narrow(V_ty, c, pol, checker):
         cons = build_constraint(c, checker)
         if not pol:
             cons = cons.invert()
-        res = constrain_value(V.ty_to_value(V_ty), cons)
+        if has_other(c):
+            # constraints are applied per variable by the scopes; `constrain_value` itself applies whatever it is given
+            from pyanalyze.stacked_scopes import _constrain_value
+            res = _constrain_value([V.ty_to_value(V_ty)], [k for k in cons.apply() if k.varname == VN])
+        else:
+            res = constrain_value(V.ty_to_value(V_ty), cons)
         return V.value_to_ty(res)
     except Exception as e:  # noqa: BLE001
         return "EXC:%s" % type(e).__name__
@@ -346,10 +364,15 @@ def _deep_same(a, b):
     return a == b
 
 
-def py_holds(c, o):
-    """Evaluate the real condition on the real object; raises Undefined when the quantifier excludes the pair."""
+def py_holds(c, o, env=None):
+    """Evaluate the real condition on the real object; raises Undefined when the quantifier excludes the pair.
+    env = (object of the other variable, opaque bits) for combinations with atoms on `y` / opaque operands."""
     k = c[0]
     try:
+        if k == "other":
+            return py_holds(c[1], env[0])
+        if k == "opq":
+            return bool(env[1][c[1]])
         if k in ("isinst", "mclass", "ainst"):
             cs = tuple(V.CLASSES[i] for i in (c[1] if k == "isinst" else [c[1]]))
             return isinstance(o, cs)
@@ -398,11 +421,11 @@ def py_holds(c, o):
         if k in ("typeis", "typeguard"):
             return G.member(o, c[1])
         if k == "not":
-            return not py_holds(c[1], o)
+            return not py_holds(c[1], o, env)
         if k == "and":
-            return all([py_holds(x, o) for x in c[1]])  # every operand must be defined (no short-circuit in the spec)
+            return all([py_holds(x, o, env) for x in c[1]])  # every operand must be defined (no short-circuit in the spec)
         if k == "or":
-            return any([py_holds(x, o) for x in c[1]])
+            return any([py_holds(x, o, env) for x in c[1]])
     except Undefined:
         raise
     except Exception:  # noqa: BLE001  (TypeError: len() of unsized object, unhashable key, ...)
@@ -428,6 +451,8 @@ def tested_ty(c):
         return ("union", [])
     if k == "swap":
         return tested_ty(c[1])
+    if k in ("other", "opq"):
+        return ("union", [])
     if k == "not":
         return tested_ty(c[1])
     return ("union", [tested_ty(x) for x in c[1]])
@@ -575,10 +600,58 @@ def gen_leaf(rng, Vt, kinds=None):
     raise ValueError(k)
 
 
+Y_POOL = [("union", [("typed", G.INT), ("known", ("none",))]), ("union", [("typed", G.STR), ("typed", G.INT)]),
+          ("union", [("known", ("int", 1)), ("known", ("str", "a"))]), ("typed", G.BOOL), ("typed", V.CID[U.Color]),
+          ("union", [("typed", V.CID[U.A]), ("known", ("none",))])]
+Y_OBJS = [("none",), ("int", 1), ("int", 0), ("str", "a"), ("bool", 1), ("inst", V.CID[U.Color], 0), ("inst", V.CID[U.A], 0)]
+
+
+def opaque_ids(c):
+    if c[0] == "opq":
+        return {c[1]}
+    if c[0] in ("not", "other"):
+        return opaque_ids(c[1]) if c[0] == "not" else set()
+    if c[0] in ("and", "or"):
+        return set().union(*[opaque_ids(x) for x in c[1]])
+    return set()
+
+
+def has_other(c):
+    if c[0] == "other":
+        return True
+    if c[0] == "not":
+        return has_other(c[1])
+    if c[0] in ("and", "or"):
+        return any(has_other(x) for x in c[1])
+    return False
+
+
+def envs_for(c):
+    """every valuation of the opaque bits x a few objects of the other variable (None = the condition has neither)"""
+    ids = sorted(opaque_ids(c))
+    if not ids and not has_other(c):
+        return [None]
+    n = (max(ids) + 1) if ids else 0
+    ys = [V.obj_to_py(o) for o in Y_OBJS] if has_other(c) else [None]
+    out = []
+    for bits in itertools.product([False, True], repeat=len(ids)):
+        full = [False] * n
+        for i, b in zip(ids, bits):
+            full[i] = b
+        for y in ys:
+            out.append((y, full))
+    return out
+
+
 def gen_bcond(rng, Vt):
     r = rng.random()
     n = 2 if r < 0.8 else 3
     ls = [gen_leaf(rng, Vt, ["isinst", "isinst", "is", "isnot", "eq", "ne", "in", "notin", "truthy", "typeis"]) for _ in range(n)]
+    if rng.random() < 0.35:
+        # an operand without constraint on the variable: opaque, or an atom on another variable
+        extra = ("opq", rng.randrange(2)) if rng.random() < 0.6 else \
+            ("other", gen_leaf(rng, rng.choice(Y_POOL), ["isinst", "is", "isnot", "eq", "truthy"]))
+        ls.insert(rng.randrange(len(ls) + 1), extra)
     ls = [("not", l) if rng.random() < 0.25 else l for l in ls]
     b = (rng.choice(["and", "or"]), ls)
     if rng.random() < 0.15:
@@ -733,6 +806,10 @@ def gen_triples(ctx):
 def any_swap(c):
     if c[0] == "swap":
         return True
+    if c[0] == "other":
+        return any_swap(c[1])
+    if c[0] == "opq":
+        return False
     if c[0] == "not":
         return any_swap(c[1])
     if c[0] in ("and", "or"):
@@ -869,6 +946,7 @@ def evaluate(ctx, triples, with_model=True, replaying=False):
         # ---- property search with the CPython oracle
         tst = tested_ty(c)
         lenient_case = any_lenient(c, Vt, arity)
+        envs = envs_for(c)
         lost = widened = None
         objs = objects_for(rng, Vt, c, ctx.n(3, 6))
         nsmall = len(small_objs())
@@ -889,10 +967,23 @@ def evaluate(ctx, triples, with_model=True, replaying=False):
                 continue
             if cross(o, Vt, c):
                 continue
-            try:
-                h = py_holds(c, py)
-            except Undefined:
-                h = None
+            hs = set()
+            for env in envs:
+                try:
+                    hs.add(py_holds(c, py, env))
+                except Undefined:
+                    hs.add(None)
+            h = next(iter(hs)) if len(hs) == 1 else "both"
+            if h == "both":
+                # the condition can be true and false for this object depending on the opaque bits / the other variable:
+                # the object reaches both branches
+                hs.discard(None)
+                if inV and lost is None and not lenient_case:
+                    for hv in sorted(hs):
+                        if not (in1 if hv else in0):
+                            lost = (1 if hv else 0, o, py)
+                            break
+                continue
             if want_spec:
                 spec_lines.append("check %s %s 1 %s" % (case["sV"], case["scond"], V.obj_sexp(V.canon_obj(o))))
                 spec_ref.append((inV, h, inT, bool(py), _len(py)))
@@ -984,6 +1075,7 @@ def evaluate(ctx, triples, with_model=True, replaying=False):
     e2e(ctx, triples, impl, model, checker, with_model)
     if not replaying:
         match_stream(ctx, checker, with_model)
+        flow_stream(ctx, checker, with_model)
 
 
 _MVEC = {}
@@ -1050,6 +1142,13 @@ def cond_text(c):
         if s is None or c[1][1][0] == "fset":
             return None
         return "%s %s x" % (s, {"is": "is", "isnot": "is not", "eq": "==", "ne": "!="}[c[1][0]])
+    if k == "other":
+        s = cond_text(c[1])
+        return None if s is None else re.sub(r"\bx\b", "y", s)
+    if k == "opq":
+        i = c[1]
+        return {"call": "flag%d()" % i, "eqab": "a%d == b%d" % (i, i), "isab": "a%d is b%d" % (i, i), "inab": "a%d in b%d" % (i, i),
+                "isvar": "isinstance(x, k%d)" % i}[c[2]] if len(c) > 2 else None
     if k == "not":
         s = cond_text(c[1])
         return None if s is None else "not (%s)" % s
@@ -1100,6 +1199,8 @@ def e2e(ctx, triples, impl, model, checker, with_model):
             break
         if not spellable(Vt) or any(isinstance(r, str) for r in impl[i]):
             continue
+        if has_other(c) or opaque_ids(c):
+            continue   # these go through the `flow` stream (second variable, opaque operands, executed)
         guard = None
         if is_leaf(c) and c[0] in ("typeis", "typeguard"):
             if not spellable(c[1]) or c[1] == ("union", []):
@@ -1224,6 +1325,299 @@ def e2e(ctx, triples, impl, model, checker, with_model):
                            program="def f(x: %s):\n    if %s: reveal_type(x)\n    else: reveal_type(x)" % (case["type"], text)),
                       "end to end: the object belongs to the declared type and the condition evaluates to %s for it, but it does "
                       "not belong to the type revealed in that branch" % bool(pol), cls=cls, conforms=conf, stream="e2e-keeps")
+
+
+# ------------------------------------------------------------------ flow: bool-op trees with opaque operands, really executed
+FLOW_X = [("union", [("typed", G.INT), ("known", ("none",))]), ("union", [("typed", G.INT), ("typed", G.STR)]),
+          ("union", [("known", ("int", 1)), ("known", ("str", "a"))]), ("union", [("typed", G.INT), ("typed", G.STR), ("known", ("none",))]),
+          ("typed", V.CID[U.Color]), ("typed", G.BOOL), ("union", [("typed", V.CID[U.A]), ("typed", V.CID[U.Cc])]),
+          ("union", [("known", ("str", "a")), ("known", ("str", "")), ("known", ("none",))]), ("typed", 0),
+          ("union", [("seq", G.TUPLE, [("typed", G.INT)]), ("known", ("none",))]), ("union", [("typed", G.FLOAT), ("typed", G.STR)])]
+X_KINDS = ["isinst", "isinst", "is", "isnot", "eq", "ne", "in", "notin", "truthy"]
+OPQ_KINDS = ["call", "call", "eqab", "isab", "inab", "isvar"]
+POSITIONS = ["if", "if", "elif", "while", "ternary", "assert", "walrus"]
+
+
+class _Nope:
+    pass
+
+
+def swap_vars(c):
+    """the same condition seen from the other variable"""
+    k = c[0]
+    if k == "other":
+        return c[1]
+    if k == "opq":
+        return c
+    if k == "not":
+        return ("not", swap_vars(c[1]))
+    if k in ("and", "or"):
+        return (k, [swap_vars(x) for x in c[1]])
+    return ("other", c)
+
+
+def gen_flow_tree(rng, Vx, Vy, depth, opq):
+    """bool-op tree: atoms on x, atoms on y, opaque operands (registered in `opq`: index -> kind)"""
+    def atom():
+        r = rng.random()
+        if r < 0.5:
+            return gen_leaf(rng, Vx, X_KINDS)
+        if r < 0.72:
+            return ("other", gen_leaf(rng, Vy, X_KINDS))
+        i = rng.randrange(2)
+        opq.setdefault(i, rng.choice(OPQ_KINDS))
+        return ("opq", i, opq[i])
+    def tree(d):
+        if d == 0 or rng.random() < 0.25:
+            a = atom()
+            return ("not", a) if rng.random() < 0.2 else a
+        n = 2 if rng.random() < 0.75 else 3
+        t = (rng.choice(["and", "or", "or"]), [tree(d - 1) for _ in range(n)])
+        return ("not", t) if rng.random() < 0.15 else t
+    t = tree(depth)
+    if t[0] not in ("and", "or", "not"):
+        t = (rng.choice(["and", "or"]), [t, atom()])
+    return t
+
+
+def std_flow_cases():
+    """the shapes of the seeded change C02-2 and their neighbours, in every position"""
+    OI = ("union", [("typed", G.INT), ("known", ("none",))])
+    SI = ("union", [("typed", G.STR), ("typed", G.INT)])
+    L1A = ("union", [("known", ("int", 1)), ("known", ("str", "a"))])
+    out = []
+    shapes = [
+        (OI, ("or", [("is", ("none",)), ("opq", 0, "eqab")])), (SI, ("or", [("isinst", [G.INT]), ("opq", 0, "call")])),
+        (L1A, ("or", [("eq", ("int", 1)), ("opq", 0, "isab")])), (SI, ("or", [("in", ("tuple", [("str", "a"), ("str", "ab")])), ("opq", 0, "inab")])),
+        (OI, ("or", [("opq", 0, "call"), ("is", ("none",))])), (OI, ("or", [("is", ("none",)), ("opq", 0, "isvar")])),
+        (OI, ("or", [("is", ("none",)), ("other", ("is", ("none",)))])), (OI, ("and", [("isnot", ("none",)), ("opq", 0, "call")])),
+        (OI, ("not", ("or", [("is", ("none",)), ("opq", 0, "call")]))), (OI, ("not", ("and", [("isnot", ("none",)), ("opq", 0, "call")]))),
+        (OI, ("or", [("is", ("none",)), ("and", [("other", ("truthy",)), ("opq", 0, "call")])])),
+        (SI, ("or", [("and", [("isinst", [G.INT]), ("opq", 0, "call")]), ("isinst", [G.STR])])),
+        (SI, ("or", [("isinst", [G.INT]), ("or", [("opq", 0, "call"), ("opq", 1, "eqab")])])),
+        (OI, ("and", [("or", [("is", ("none",)), ("opq", 0, "call")]), ("or", [("truthy",), ("opq", 1, "call")])])),
+    ]
+    for Vx, c in shapes:
+        for pos in ("if", "elif", "while", "ternary", "assert", "walrus"):
+            out.append((Vx, OI, c, pos))
+    return out
+
+
+def flow_stream(ctx, checker, with_model, cases=None):
+    """Conditions of the full grammar (and/or/not over atoms on x, atoms on y and opaque operands) in if / elif / while /
+    ternary / assert / walrus position. The generated module is checked, then *executed* on every object of the declared types
+    and both values of every opaque bit; each variable's object must belong to the type revealed in the branch that ran."""
+    import contextlib, io
+    rng = ctx.rng
+    if cases is None:
+        cases = std_flow_cases()
+        for _ in range(ctx.n(170, 5000)):
+            Vx, Vy = rng.choice(FLOW_X), rng.choice(Y_POOL)
+            opq = {}
+            c = gen_flow_tree(rng, Vx, Vy, rng.choice([1, 2, 2, 3]), opq)
+            cases.append((Vx, Vy, c, rng.choice(POSITIONS)))
+    ok = []
+    for Vx, Vy, c, pos in cases:
+        lits = cond_literals(c) + cond_literals(swap_vars(c))
+        if cond_text(c) is None or not no_cross_eq(lits, Vx) or not no_cross_eq(lits, Vy):
+            continue
+        ok.append((Vx, Vy, c, pos))
+    B = 120
+    S1, S2 = object(), object()
+    for b0 in range(0, len(ok), B):
+        part = ok[b0:b0 + B]
+        src = [PRELUDE.rstrip("\n"), "from typing_extensions import reveal_type", "from types import NoneType", "BITS = [False, False]",
+               "def flag0() -> bool:\n    return BITS[0]", "def flag1() -> bool:\n    return BITS[1]",
+               "def never() -> bool:\n    return False"]
+        metas = []
+        for j, (Vx, Vy, c, pos) in enumerate(part):
+            kinds = {}
+            def collect(t):
+                if t[0] == "opq":
+                    kinds[t[1]] = t[2]
+                elif t[0] in ("not", "other"):
+                    collect(t[1])
+                elif t[0] in ("and", "or"):
+                    for x in t[1]:
+                        collect(x)
+            collect(c)
+            params = ["x: %s" % ty_src(Vx), "y: %s" % ty_src(Vy)]
+            for i, kd in sorted(kinds.items()):
+                params += {"call": [], "eqab": ["a%d: int" % i, "b%d: int" % i], "isab": ["a%d: object" % i, "b%d: object" % i],
+                           "inab": ["a%d: int" % i, "b%d: list" % i], "isvar": ["k%d: type" % i]}[kd]
+            text = cond_text(c)
+            rv = "reveal_type(x); reveal_type(y)"
+            body = ["def g%d(%s):" % (j, ", ".join(params)), "    " + rv]
+            if pos in ("if", "walrus", "elif"):
+                head = "if %s:" % text if pos == "if" else ("if (t := %s):" % text if pos == "walrus" else "elif %s:" % text)
+                if pos == "elif":
+                    body += ["    if never():", "        return 2"]
+                body += ["    " + head, "        " + rv, "        return 1", "    else:", "        " + rv, "        return 0"]
+            elif pos == "while":
+                body += ["    while %s:" % text, "        " + rv, "        return 1", "    " + rv, "    return 0"]
+            elif pos == "ternary":
+                body += ["    return (reveal_type(x), reveal_type(y), 1) if %s else (reveal_type(x), reveal_type(y), 0)" % text]
+            else:
+                body += ["    assert %s" % text, "    " + rv, "    return 1"]
+            src += body
+            metas.append(kinds)
+        text_all = "\n".join(src) + "\n"
+        try:
+            fails, tree, _ = pya.check_source(text_all, annotate=True)
+        except Exception as e:  # noqa: BLE001
+            ctx.obligation_broken("flow", "checker crashed on a generated module: %r" % (e,))
+            continue
+        ns = {}
+        with contextlib.redirect_stderr(io.StringIO()):
+            exec(compile(text_all, "<c02 flow batch>", "exec"), ns)
+        noisy = {f["lineno"] for f in fails if f["code"] != "reveal_type"}
+        revealed = {}
+        for node in ast.walk(tree):
+            if isinstance(node, ast.FunctionDef) and node.name.startswith("g"):
+                vals = []
+                for sub in ast.walk(node):
+                    if isinstance(sub, ast.Call) and isinstance(sub.func, ast.Name) and sub.func.id == "reveal_type":
+                        vals.append(((sub.lineno, sub.col_offset), getattr(sub.args[0], "inferred_value", None)))
+                diagnosed = any(node.lineno <= ln <= node.end_lineno for ln in noisy)
+                revealed[int(node.name[1:])] = (diagnosed, [v for _, v in sorted(vals, key=lambda q: q[0])])
+        todo = []
+        for j, (Vx, Vy, c, pos) in enumerate(part):
+            diagnosed, vals = revealed.get(j, (True, None))
+            ctx.count(1, flow=1, **{"flow_" + pos: 1})
+            want = 4 if pos == "assert" else 6
+            if diagnosed or not vals or len(vals) != want or any(v is None for v in vals):
+                ctx.tag("flow_diagnosed_or_not_revealed")
+                continue
+            try:
+                dec = [V.value_to_ty(strip_constraint_ext(v)) for v in vals]
+            except V.Unencodable:
+                ctx.tag("flow_unencodable")
+                continue
+            case = {"flow": True, "Vx": dec[0], "Vy": dec[1], "cond": c, "pos": pos, "type": ty_src(Vx), "type_y": ty_src(Vy),
+                    "condition": cond_text(c), "sV": V.ty_sexp(dec[0]), "sVy": V.ty_sexp(dec[1]), "scond": cond_sexp(c),
+                    "scond_y": cond_sexp(swap_vars(c))}
+            todo.append((j, c, pos, dec, case, metas[j]))
+        model = None
+        if with_model and todo:
+            lines = []
+            for j, c, pos, dec, case, kinds in todo:
+                lines += ["narrowb %s %s 1" % (case["sV"], case["scond"]), "narrowb %s %s 0" % (case["sV"], case["scond"]),
+                          "narrowb %s %s 1" % (case["sVy"], case["scond_y"]), "narrowb %s %s 0" % (case["sVy"], case["scond_y"])]
+            out = lean.run_driver("C02", lines)
+            model = [out[k:k + 4] for k in range(0, len(out), 4)]
+        lost, spec_lines, spec_ref = [], [], []
+        for n, (j, c, pos, dec, case, kinds) in enumerate(todo):
+            um = unmodelled(dec[0], c) or unmodelled(dec[1], swap_vars(c))
+            conforms = True
+            # revealed: [x0, y0, x_body, y_body, (x_else, y_else)]; after a `while` the subject is deliberately not narrowed
+            pairs = [(2, 0, "x if-branch"), (3, 2, "y if-branch")]
+            if pos not in ("assert", "while", "walrus"):
+                # (after a `while` and in the else branch of `if (t := cond)` the checker deliberately narrows less;
+                #  those branches are judged by the execution below only)
+                pairs += [(4, 1, "x else-branch"), (5, 3, "y else-branch")]
+            if model is not None and not um:
+                for di, mi, what in pairs:
+                    ctx.corr("flow")
+                    m = model[n][mi]
+                    got = set(canon_result(dec[di]))
+                    exp = set() if m == "bad-op" else set(canon_sexp_result(m))
+                    # The body of an `if` sees the variable as the bool-op subscopes left it: `A or B` evaluates B under
+                    # not-A, and the scopes of the operands are merged, which can add members the narrowing by not-A created
+                    # (Literal[False] beside bool, an isinstance pattern, ...). So the revealed type may be *wider* than
+                    # `narrowB`; every member of the model's type must be there (a narrower implementation is a disagreement).
+                    if m == "bad-op" or not exp <= got:
+                        conforms = False
+                        ctx.disagree("flow", dict(case, branch=what), sorted(got), m if m == "bad-op" else sorted(exp))
+                    elif got != exp:
+                        ctx.tag("flow_wider_by_subscope_merge")
+            if canon_result(dec[2]) != canon_result(dec[0]) or (len(dec) > 4 and canon_result(dec[4]) != canon_result(dec[0])):
+                ctx.nontriv("flow|" + case["sV"] + "|" + case["scond"] + "|" + pos)
+            if n % 61 == 0:
+                ctx.sample({"x": case["type"], "y": case["type_y"], "position": pos, "condition": case["condition"],
+                            "revealed": [V.ty_sexp(d) for d in dec[2:]]})
+            f = ns["g%d" % j]
+            xs = [(o, py) for o, py in objects_for(rng, dec[0], c, 0) if G.member(py, dec[0]) and not property_silent(dec[0], o)]
+            xlits = {V.obj_sexp(V.canon_obj(l)) for l in cond_literals(c)}
+            xs.sort(key=lambda q: (V.obj_sexp(V.canon_obj(q[0])) not in xlits, q[0][0] in ("tuple", "list", "set", "fset", "dict")))
+            ys = [(o, V.obj_to_py(o)) for o in Y_OBJS if G.member(V.obj_to_py(o), dec[1])] or [(("none",), None)]
+            ids = sorted(kinds)
+            found = False
+            for (ox, px), (oy, pyy) in itertools.product(xs[:ctx.n(10, 16)], ys[:3]):
+                if found:
+                    break
+                if not all(_eq_safe(px, V.obj_to_py(l)) for l in cond_literals(c)):
+                    continue
+                if not all(_eq_safe(pyy, V.obj_to_py(l)) for l in cond_literals(swap_vars(c))):
+                    continue
+                for bits in itertools.product([False, True], repeat=len(ids)):
+                    full = [False, False]
+                    kw = {}
+                    for i, bv in zip(ids, bits):
+                        full[i] = bv
+                        kd = kinds[i]
+                        if kd == "eqab":
+                            kw["a%d" % i], kw["b%d" % i] = 1, (1 if bv else 2)
+                        elif kd == "isab":
+                            kw["a%d" % i], kw["b%d" % i] = S1, (S1 if bv else S2)
+                        elif kd == "inab":
+                            kw["a%d" % i], kw["b%d" % i] = 1, ([1] if bv else [])
+                        elif kd == "isvar":
+                            kw["k%d" % i] = object if bv else _Nope
+                    ns["BITS"][:] = full
+                    try:
+                        with contextlib.redirect_stderr(io.StringIO()):
+                            r = f(px, pyy, **kw)
+                    except AssertionError:
+                        r = 0
+                        if pos != "assert":
+                            raise
+                    except Exception:  # noqa: BLE001   (the test raises on this object: outside the quantifier)
+                        continue
+                    if isinstance(r, tuple):
+                        r = r[-1]
+                    # the spec's truth of the condition in this state vs what CPython did
+                    if with_model and len(spec_lines) < ctx.n(1500, 20000):
+                        spec_lines.append("checkbe %s %s 1 %s %s (%s)" % (case["sV"], case["scond"], V.obj_sexp(V.canon_obj(ox)),
+                                                                         V.obj_sexp(V.canon_obj(oy)), " ".join("1" if b else "0" for b in full)))
+                        spec_ref.append(r == 1)
+                    if pos == "assert" and r == 0:
+                        continue
+                    if pos == "while" and r == 0:
+                        xi, yi = None, None
+                    else:
+                        xi, yi = (2, 3) if r == 1 else (4, 5)
+                    bad = None
+                    if xi is not None and not G.member(px, dec[xi]):
+                        bad = ("x", ox, px, case["sV"], case["scond"], oy)
+                    elif yi is not None and not G.member(pyy, dec[yi]) and not property_silent(dec[1], oy):
+                        bad = ("y", oy, pyy, case["sVy"], case["scond_y"], ox)
+                    if bad:
+                        lost.append((case, bad, r, full, conforms and not um))
+                        found = True
+                        break
+        if with_model and spec_lines:
+            out = lean.run_driver("C02", spec_lines)
+            for l, m, ref in zip(spec_lines, out, spec_ref):
+                if m == "bad-op" or m[1] != "1":
+                    continue   # outside condOk (cross-type equality etc.)
+                ctx.corr("spec")
+                if m[2] != ("1" if ref else "0"):
+                    ctx.disagree("spec", l, "the if-branch ran: %s" % ref, m)
+        dl = []
+        if with_model and lost:
+            dl = lean.run_driver("C02", ["checkbe %s %s %d %s %s (%s)" % (sv, sc, 1 if r == 1 else 0, V.obj_sexp(V.canon_obj(o)),
+                                                                        V.obj_sexp(V.canon_obj(oo)), " ".join("1" if b else "0" for b in full))
+                                         for case, (var, o, py, sv, sc, oo), r, full, conf in lost])
+        for n, (case, (var, o, py, sv, sc, oo), r, full, conf) in enumerate(lost):
+            l = dl[n] if n < len(dl) else ""
+            cls = live_cls(l.split(" D=")[1].split(",")) if " D=" in l else None
+            model_lost = (" D=" in l) and l[3] == "0"
+            ctx.candidate(dict(case, variable=var, object=repr(py), obj=o, other_obj=oo, bits=full, ran="if-branch" if r == 1 else "else-branch",
+                               driver=l, program="def g(x: %s, y: %s, ...):  # %s position\n    %s" % (
+                                   case["type"], case["type_y"], case["pos"], case["condition"])),
+                          "really executed: with %s = %r and the opaque operands = %s the %s runs, but the object does not belong to the "
+                          "type pyanalyze infers for %s there" % (var, py, full, "if-branch" if r == 1 else "else-branch", var),
+                          cls=cls, conforms=conf and model_lost, stream="flow-keeps")
 
 
 # ------------------------------------------------------------------ match statements (patma), really executed
@@ -1512,6 +1906,10 @@ def run_impl_only(ctx):
 
 def replay(ctx, data):
     c = data["case"]
+    if c.get("flow"):
+        flow_stream(ctx, pya.make_checker(), True, cases=[(totuple(c["Vx"]), totuple(c["Vy"]), totuple(c["cond"]), c["pos"])])
+        print(json.dumps({"candidates": ctx.candidates[:3], "broken": ctx.broken[:3]}, indent=1, default=str))
+        return 1 if (ctx.candidates or ctx.broken) else 0
     if "match" in c:
         match_stream(ctx, pya.make_checker(), True, cases=[(totuple(c["V"]), [totuple(p) for p in c["match"]], bool(c.get("leave")))])
         print(json.dumps({"candidates": ctx.candidates[:3], "broken": ctx.broken[:3]}, indent=1, default=str))
